@@ -8,7 +8,7 @@ from ..common import token, weighted
 from ..monitors import find_token, find_token_deep
 
 PLAN = {
-    "quick": {"shards": 8, "cases": 300, "min_nontrivial": 1500, "budget_s": 240},
+    "quick": {"shards": 8, "cases": 800, "min_nontrivial": 3500, "budget_s": 300},
     "thorough": {"shards": 16, "cases": 5000, "min_nontrivial": 50000, "budget_s": 1500},
 }
 RULE = ("a case is (hash algorithm, secret p as text or bytes - empty, Unicode, long, containing a unique token -, a set "
